@@ -2,7 +2,9 @@
 import re
 from rules.common import (PredTrue, data_test, no_effects, where, exact_origins, all_origins, flat_atoms,
                           overrides, pool_writes, status_reads, effects_signature, show)
-from absint import vget, const_of, EMPTY
+from absint import vget, const_of, EMPTY, vfield
+from rules.common import VariantEdge
+from base import CutPolicy
 
 EXPLANATION = ("static analysis (MIR abstract interpretation): for each pool operation the status flag's true-edge cuts every "
                "path to any storage write or outgoing message; flag reads are enumerated per message variant (non-interference); "
@@ -89,6 +91,23 @@ def run(W, chk):
                    "KEY-toggle-same-pool", "UpdateConfig", "toggle loads feature_toggle.pool_identifier and saves under the loaded pool's own identifier",
                    "toggle loads %s saves under %s" % (sorted(lk), sorted(ko)), where(e))
 
+    # ---- each flag toggled on its own is persisted: with only that flag given (the other two absent) the pool is still saved,
+    # with that flag taken from the request (a "changed" marker forgotten for one flag would silently drop the toggle)
+    FLAGS = ("swaps_enabled", "deposits_enabled", "withdrawals_enabled")
+    FT = r"^msg\.UpdateConfig\.feature_toggle"
+    for flag in FLAGS:
+        cuts = [VariantEdge("assume a feature toggle is given", FT + "$", ["None"]),
+                VariantEdge("assume %s given" % flag, FT + r"\.%s$" % flag, ["None"])]
+        cuts += [VariantEdge("assume %s absent" % g, FT + r"\.%s$" % g, ["Some"]) for g in FLAGS if g != flag]
+        pol = CutPolicy(cuts)
+        B = W.run("pool_manager", "execute", ("UpdateConfig",), pol)
+        sv = [e for e in pool_writes(B) if ("msg.UpdateConfig.feature_toggle.%s" % flag) in all_origins(vfield(vfield(e.extra.get("value", EMPTY), "status"), flag))]
+        found = sum(1 for c in cuts if c.name in pol.hits)
+        if found < 3:
+            chk.skip("PAIR-toggle-persisted", flag, "the three per-flag `if let Some(..)` decisions were not found in this shape")
+            continue
+        chk.expect(bool(sv), "PAIR-toggle-persisted", flag, "toggling only %s saves the pool with the new value" % flag,
+                   "with only %s given, no POOLS.save carrying it is reachable: the toggle is silently dropped" % flag, B.entry)
     # ---- new pools start enabled
     A = W.run("pool_manager", "execute", ("CreatePool",))
     for e in pool_writes(A):
